@@ -187,7 +187,12 @@ Step ==
                     [] want[1] = "none" -> Q.tm = -1
                     \* (before its first packet, and after a Retry until the new Initial packet - queued,
                     \* perhaps waiting for the pacer - is sent, a client has nothing in flight and the timer idle)
-                    [] want[1] = "armed" -> Q.tm # -1 \/ Q.pcr > 0 \/ Q.sentb = 0
+                    [] want[1] = "armed" -> \/ Q.pcr > 0 \/ Q.sentb = 0
+                                            \* (armed by this very step - an expiry, a newly acknowledging
+                                            \* ACK - it runs from now)
+                                            \/ /\ Q.tm # -1
+                                               /\ ((ptoDue \/ (e.kind = "Rx" /\ e.sure /\ ackSpaces # {})) /\ Q.ptoc <= 8)
+                                                     => Near(Q.tm, PtoAt(e.t, Q.ptob, Q.ptoc), Pow2(Q.ptoc) + 1)
                     [] OTHER -> TRUE, "LossTimerWrong")
         \* ---- the probe timeout count
         \cup Flag(IF ptoDue /\ Q.st < 2 /\ samePath /\ P.ptoc <= 8
